@@ -167,3 +167,15 @@ def run(cx):
         OCT_DONE = rf"^!ok\(<Zip<A;B> as Iterator>::next\(Iterator::zip\(slice::iter\({ZIP}@Some\.0\.0\),slice::iter\({ZIP}@Some\.0\.1\)\)\)\)$"
         cx.guard('C04.G2', length, {'after-all-common-octets-equal': OCT_DONE}, fn=c)
         cx.guard('C04.G2', count, {'after-all-common-labels-equal': rf'^!ok\({ZIP}\)$'}, fn=c)
+
+    # ---------------------------------------------------------------- G3 compression keeps the spelling
+    # a name may be replaced by a pointer only to an earlier byte-identical suffix: any looser match (e.g. ignoring ASCII case)
+    # makes the name decode with the other name's letter case
+    g = cx.fn('C04.G3', 'hickory_proto::serialize::binary::encoder::BinEncoder::get_label_pointer')
+    if g:
+        hits = cx.returns(g, r'^Option::Some\(')
+        cx.guard('C04.G3', hits, {'candidate-bytes-equal-the-suffix-bytes':
+                                  r"^eq:\[u8\]\(Vec::as_slice\(<Iter<'a;T> as Iterator>::next\(arg1\.name_pointers\)@Some\.0\.1\),BinEncoder::slice_of\(arg1,arg2,arg3\)\)$"}, expect=1, fn=g)
+        for s_ in hits:
+            cx.check('C04.G3', bool(re.match(r"^Option::Some\(cast<u16>\(<Iter<'a;T> as Iterator>::next\(arg1\.name_pointers\)@Some\.0\.0\)\)$", s_.term)), g.path, s_.key(),
+                     'pointer-is-the-offset-stored-with-the-matching-candidate', s_.term, s_.loc)
